@@ -54,6 +54,9 @@ func init() {
 	"errors.New":   func(fr *frame, a []value) value { return newOpaqueError(a[0].(string)) },
 
 	"hash/crc32.Update": extCrcUpdate,
+	"hash/crc32.ChecksumIEEE": func(fr *frame, a []value) value {
+		return extCrcUpdate(fr, []value{uint32(0), nil, a[0]})
+	},
 
 	"(*sync.Mutex).Lock":     extMutexLock,
 	"(*sync.Mutex).Unlock":   extMutexUnlock,
@@ -378,6 +381,12 @@ func (p *Program) intrinsic(name string) externalFn {
 				return a[0]
 			}
 			return mkBool(fr.i.tb.BAnd(fr.i.boolTerm(a[0]), fr.i.boolTerm(a[1])))
+		}
+	case "vpDataFromReaderAt":
+		return func(fr *frame, a []value) value {
+			// segment.Data{mem []byte; r io.ReaderAt; sz int}
+			var cell value = structure{[]value(nil), a[0], a[1]}
+			return &cell
 		}
 	case "vpThorough":
 		return func(fr *frame, a []value) value { return fr.i.ps.ex.tier > 0 }
